@@ -123,8 +123,8 @@ def check_c03(out, tier, seed):
         seqs = {k: v for k, v in seqs.items() if tuple(sorted(k)) in keep}
         ndocs += len(keep)
         jobs += c.perm_jobs(seqs, ops, "perm1", cfgversion="none", tag="5")
-    traces = c.replay_all(jobs)
-    r = c.validate(traces, "val-C03")
+    r = c.replay_validate(jobs, "val-C03")
+    traces = list(r["by_id"].values())
     prej, ngroups = c.validate_perm_groups(traces, jobs, "perm-C03")
     by_id = r["by_id"]
     for tid, ev, clauses, phase in r["rejects"] + prej:
@@ -216,8 +216,8 @@ def check_c11(out, tier, seed):
                                      ops=[A(x) for x in od] + [dict(k="ren", text="", id="a", id2="d")],
                                      universe=["a", "b", "d", "g1"]))
                     n += 1
-    traces = c.replay_all(jobs)
-    r = c.validate(traces, "val-C11")
+    r = c.replay_validate(jobs, "val-C11")
+    traces = list(r["by_id"].values())
     by_id = r["by_id"]
     for tid, ev, clauses, phase in r["rejects"]:
         t = by_id[tid]
@@ -300,8 +300,8 @@ def check_c13(out, tier, seed):
                                          ops=[dict(k="load", text="", id=en, id2="", texts=texts,
                                                    cfgversion=None if cfgv == "none" else cfgv)],
                                          universe=["A", "a"]))
-    traces = c.replay_all(jobs)
-    r = c.validate(traces, "val-C13")
+    r = c.replay_validate(jobs, "val-C13")
+    traces = list(r["by_id"].values())
     by_id = r["by_id"]
     for tid, ev, clauses, phase in r["rejects"]:
         t = by_id[tid]
@@ -365,8 +365,8 @@ def check_c10(out, tier, seed):
             gs = list(queries.GROUPS)
             rnd.shuffle(gs)
             jobs.append(dict(j, ops=j["ops"] + [Qop(g) for g in gs], id="q" + j["id"]))
-    traces = c.replay_all(jobs)
-    r = c.validate(traces, "val-C10")
+    r = c.replay_validate(jobs, "val-C10")
+    traces = list(r["by_id"].values())
     by_id = r["by_id"]
     nq = sum(1 for t in traces for e in t["ev"] if e["op"]["k"] == "query")
     for tid, ev, clauses, phase in r["rejects"]:
